@@ -4,7 +4,7 @@
    coincide) and for the arithmetic fragment with abs, min and max (C02_objective_abs: exactly the statement below; C02_optimum_abs:
    an optimal point of the compiled model is feasible and optimal for the source with the same value - under a
    minimised abs or max the linear objective only over-estimates, and the optimum is where the two meet); for models with
-   logic nodes or pruned min / max operands the target statement is kept visible and the proved parts are *_partial. *)
+   logic nodes the target statement is kept visible and the proved parts are *_partial. *)
 From Coq Require Import QArith Reals List String.
 From Rooc Require Import Base.XQ Model.Exp Model.Sem Model.Bounds Model.Linearize Model.Spec
   Proof.PublishedCompile Proof.LinAffine Proof.ArmLemmas Proof.CompileAffine Proof.CompileAbs.
